@@ -29,7 +29,6 @@ import (
 	"sync"
 
 	"github.com/rogpeppe/go-internal/testscript"
-	"github.com/rogpeppe/go-internal/txtar"
 
 	"verif/harness/internal/corr"
 	"verif/harness/internal/mdl"
@@ -712,6 +711,6 @@ func corpusCases() []*tcase {
 		mk("c01", flags{cont: true}, "skip\nexists nothing\n", obs{verdict: "skip", line: -1}, "skip before the failing line"),
 		mk("c01", flags{cont: true}, "# phase\nexists nothing\n\n# next\nstop done\nexists nothing\n", obs{verdict: "fail", line: 2}, "failure, then stop, ContinueOnError"),
 		// fixed 26d8675: an update that cannot be quoted escaped as panic(failNow)
-		mk("c01", flags{update: true, customCmds: true}, "put out nonl a '-- x --'\ncmp stdout g\n-- g --\nx\n", obs{verdict: "fail", line: 2}, "regression: unquotable update content"),
+		mk("c01", flags{update: true, customCmds: true}, "put out nonl a '-- x --'\ncmp stdout g\n-- g --\nx\n", obs{verdict: "fail", line: 2, tree: []string{"f:" + corr.Hx([]byte("g")) + ":" + corr.Hx([]byte("x\n"))}}, "regression: unquotable update content"),
 	}
 }
